@@ -4,8 +4,8 @@
    explicit premises).  [okf] is the strictness predicate: the ranking theorems hold for EVERY predicate, in
    particular for [is_strictness_fulfilled s]; what that predicate means is the subject of
    [strictness_eval_sound].  [names_distinct]: the candidate set is a set (the table is indexed by model name). *)
-From Coq Require Import QArith ZArith List Bool PArith Arith Permutation Sorted.
-From PV Require Import Base.PyData Base.Expr Base.Interp C19.Model C19.Spec C19.Penalty C19.Summary C19.Categorize C19.Proofs C19.Stats C19.StatsProofs.
+From Coq Require Import QArith ZArith List Bool PArith Arith Permutation Sorted Qround.
+From PV Require Import Base.PyData Base.Expr Base.Interp C19.Model C19.Spec C19.Penalty C19.Summary C19.Categorize C19.Proofs C19.Stats C19.StatsProofs C19.Stats2 C19.Stats2Proofs.
 Import ListNotations.
 Local Open Scope nat_scope.
 
@@ -447,3 +447,61 @@ Theorem mfl_lagtime_counts : forall len on, len <> 1 -> lag_counts (Some (len, o
 Proof. exact lag_counts_def. Qed.
 Theorem mfl_peripherals_counts : forall len c0, len <> 1 -> per_counts (Some (len, c0)) = ((Z.of_nat len - 1)%Z, c0).
 Proof. exact per_counts_def. Qed.
+
+
+(* ---- percentiles (pandas / numpy `quantile`, default linear interpolation) and the simeval summary (Stats2.v) *)
+
+(* quantile p of the non-NaN values l: with s the ascending sort of l, h = (n-1) p, lo = floor h, the value is
+   s[lo] + (h - lo)(s[lo+1] - s[lo]) (the upper neighbour at the last position being the value itself) *)
+Theorem quantile_def :
+  forall p l v,
+    quantile p l = Some v ->
+    exists s, Permutation s l /\ StronglySorted Qle s /\ s <> [] /\
+      let h := (natQ (length s - 1) * p)%Q in
+      let lo := Z.to_nat (Qfloor h) in
+      v = (nth lo s 0 + (h - inject_Z (Qfloor h)) * (nth (S lo) s (nth lo s 0) - nth lo s 0))%Q.
+Proof. exact quantile_def_lemma. Qed.
+Theorem quantile_nan_iff_empty : forall p l, quantile p l = None <-> l = [].
+Proof. exact quantile_none_lemma. Qed.
+Theorem distribution_min_is_min : forall l m, qmin l = Some m -> In m l /\ forall x, In x l -> (m <= x)%Q.
+Proof. exact qmin_is_min. Qed.
+(* bootstrap parameter_distribution: min, the nine percentile columns (0.05 % ... median ... 99.95 %) and max of column j of
+   the stacked table are those of the estimates of the parameter NAMED by column j *)
+Theorem bootstrap_percentiles_by_name :
+  forall reps j p, nth_error (boot_cols reps) j = Some p -> boot_dist reps j = doc_boot_dist reps p.
+Proof. exact boot_dist_by_name_lemma. Qed.
+
+(* simeval iofv_summary of individual i with simulated iOFVs l (|l| >= 2, sd <> 0) and original iOFV x:
+   sampled mean, sampled sd (ddof 1), residual = (x - mean) / sd, outlier iff residual >= 3, quartile residuals *)
+Theorem simeval_formulas :
+  forall sqrtq sims orig i l x,
+    avail (values_of sims i) = l -> 2 <= length l -> sget orig i = Some x ->
+    let m := (qsum l / natQ (length l))%Q in
+    let v := (qsum (map (fun y => (y - m) * (y - m))%Q l) / natQ (length l - 1))%Q in
+    Qeq_bool (sqrtq v) 0 = false ->
+    let r := simeval_row sqrtq sims orig i in
+    sm_mean r = Some m /\ sm_stdev r = Some (sqrtq v) /\ sm_residual r = Some ((x - m) / sqrtq v)%Q /\
+    sm_outlier r = Qle_bool 3 ((x - m) / sqrtq v) /\
+    sm_q1 r = match quantile (1 # 4) l with Some q => Some ((x - q) / sqrtq v)%Q | None => None end /\
+    sm_q3 r = match quantile (3 # 4) l with Some q => Some ((x - q) / sqrtq v)%Q | None => None end.
+Proof. exact simeval_formulas_lemma. Qed.
+(* the order in which the simulated / original results list the individuals is irrelevant *)
+Theorem simeval_label_order_irrelevant :
+  forall sqrtq sims sims' orig orig' i,
+    Forall2 (fun r r' => Permutation r r' /\ NoDup (map fst r)) sims sims' ->
+    Permutation orig orig' -> NoDup (map fst orig) ->
+    simeval_row sqrtq sims orig i = simeval_row sqrtq sims' orig' i.
+Proof. exact simeval_label_order_lemma. Qed.
+
+(* lrt.degrees_of_freedom is the difference of the numbers of ALL parameters of the two models: fixing or unfixing a
+   parameter does not change it (docs are silent on fixed parameters; the property statement says "difference in parameter
+   count" — recorded as an observation, not a finding, see agents_out/C19.md) *)
+Theorem lrt_df_is_parameter_count_difference :
+  forall parent child,
+    degrees_of_freedom parent child = (Z.of_nat (length (c_params child)) - Z.of_nat (length (c_params parent)))%Z.
+Proof. exact lrt_df_def_lemma. Qed.
+Theorem lrt_df_ignores_fixing :
+  forall parent child child',
+    map p_name (c_params child) = map p_name (c_params child') ->
+    degrees_of_freedom parent child = degrees_of_freedom parent child'.
+Proof. exact lrt_df_ignores_fix_lemma. Qed.
